@@ -126,12 +126,7 @@ def cross_cases(rng, quick):
     return out
 
 
-def thin(ctx, items, keep=3):
-    """in an ambient-sweep child the budget is about a third (every family stays represented: every keep-th item)"""
-    if getattr(ctx, 'ambient', None) is None:
-        return items
-    off = ctx.rng.randrange(keep)
-    return [x for k, x in enumerate(items) if k % keep == off]
+thin = G.thin
 
 
 def gen_cases(ctx):
